@@ -42,3 +42,23 @@ package types
 //@   pure
 //@   requires i >= 0
 //@   ensures r <==> flagset(*f, i)
+
+// Set equality of address lists as the library defines it: same length and every address of a occurs in h.
+//@ func types.HostAddressesEqual(h, a) (r)
+//@   pure
+//@   ensures r ==> len(h) == len(a)
+//@   ensures r ==> forall x int :: 0 <= x && x < len(a) ==> addr_in(h, a[x])
+//@   loop 1 invariant -1 <= rangeindex && rangeindex < len(a)
+//@   loop 1 invariant forall x int :: 0 <= x && x <= rangeindex ==> addr_in(h, a[x])
+//@   loop 2 invariant -1 <= rangeindex && rangeindex < len(h)
+//@   loop 2 invariant found ==> addr_in(h, e)
+
+//@ func (*types.PADataSequence).Contains(pas, patype) (r)
+//@   pure
+//@   ensures r <==> (exists i int :: 0 <= i && i < len(*pas) && (*pas)[i].PADataType == patype)
+//@   loop 1 invariant -1 <= rangeindex && rangeindex < len(*pas)
+//@   loop 1 invariant forall i int :: 0 <= i && i <= rangeindex ==> (*pas)[i].PADataType != patype
+
+//@ func (*types.PAReqEncPARep).Unmarshal(p, b) (err)
+//@   modifies *p
+//@   trusted_frame the decoded structure is filled through the reflection-driven ASN.1 codec
